@@ -17,6 +17,15 @@
                     boundaries drawn CLOSE to the wrapper's (within a few steps, on and between grid points) so that the order of two
                     boundaries as points in time and the order of their wall-clock readings differ.  The flat reference portfolio gets
                     the windows intersected by hand BY INSTANT (comp/scaled._intersect_window).
+
+  stream `wrapargs` scaled assets whose WRAPPER is given the keyword arguments it inherits from Asset next to its scale parameters
+                    (ScaledAsset.__init__ accepts start, end, wacc; not freq / profile) together with fixed costs that are there, on
+                    horizons on which such an argument could show (three weeks to nine months, steps of half a day to a week): a
+                    wacc on the wrapper only / the base only / both (same, different) / every asset of the portfolio / nobody, own
+                    windows of wrapper and base, scale fixed or free.  The reference of the oracles (comp/scaled.py) is computed from
+                    the scenario alone: plain portfolio with the rescaled base (which keeps its own wacc) less s * fix_costs *
+                    duration, the duration from the instants of the grid (comp/scaled.window_duration); the cost vectors for price
+                    samples (Portfolio.create_cost_samples) are valued against the same reference.
 """
 import copy
 import math
@@ -386,11 +395,118 @@ def gen_tzwin_case(rnd, tmax=9):
     return case
 
 
+# ------------------------------------------------------------------ stream `wrapargs`
+# keyword arguments the WRAPPER itself accepts next to its scale parameters - ScaledAsset(name, base_asset, start, end, wacc,
+# min_scale, max_scale, norm_scale, fix_costs); freq / profile of Asset are not accepted by it - on horizons on which they could
+# show: weeks to months in steps of half a day to a week.
+LONG_GRIDS = [('d', 'd', pd.Timedelta(days=1)), ('d', 'd', pd.Timedelta(days=1)), ('d', 'h', pd.Timedelta(days=1)),
+              ('7d', 'd', pd.Timedelta(days=7)), ('7d', 'd', pd.Timedelta(days=7)), ('2d', 'd', pd.Timedelta(days=2)),
+              ('12h', 'd', pd.Timedelta(hours=12)), ('12h', 'h', pd.Timedelta(hours=12)), ('3d', 'd', pd.Timedelta(days=3))]
+WACCS = [0.03, 0.05, 0.08, 0.1, 0.1, 0.15, 0.25, 0.5]
+WRAP_BASES = ['simple', 'simple', 'contract', 'storage', 'storage', 'storage2', 'transport', 'ext_transport', 'multi', 'plant_lp',
+              'structured', 'structured']
+
+
+def gen_long_grid(rnd, max_steps=72):
+    """a naive grid over three weeks to nine months (at most `max_steps` steps)"""
+    freq, unit, step = rnd.choice(LONG_GRIDS)
+    days = rnd.choice([21, 28, 30, 45, 60, 61, 90, 91, 120, 150, 181, 243, 270])
+    T = max(3, min(max_steps, int(pd.Timedelta(days=days) / step)))
+    start = pd.Timestamp(rnd.choice(['2021-01-01', '2021-02-15', '2021-06-01', '2021-10-01', '2024-02-01']))
+    if rnd.random() < 0.2 and freq != 'd':
+        start = start + rnd.choice([6, 12, 18]) * gen.H
+    end = start + T * step
+    g = {'start': gen.iso(start), 'end': gen.iso(end), 'freq': freq, 'unit': unit, 'tz': None, 'T_nominal': T, 'step_s': int(step.total_seconds())}
+    gen.fix_grid(g)
+    return g
+
+
+def _put_wacc(spec, w):
+    """the wacc on an asset; on a structured asset: on every asset it wraps"""
+    if spec['type'] == 'StructuredAsset':
+        for x in spec['inner']:
+            _put_wacc(x, w)
+    elif spec['type'] == 'ScaledAsset':
+        spec['args']['wacc'] = w
+        _put_wacc(spec['base'], w)
+    elif spec['type'] != 'OrderBook':
+        spec['args']['wacc'] = w
+
+
+def gen_wrapargs_case(rnd):
+    g = gen_long_grid(rnd)
+    tg = scen.make_grid(g)
+    T = tg.T
+    prices = {}
+    nn = rnd.randint(1, 2)
+    node_names = ['N%d' % i for i in range(1, nn + 1)]
+    assets = SC._markets(rnd, g, prices, T, node_names)
+    kind = rnd.choice(WRAP_BASES)
+    while True:
+        # (bases of the relaxed statement: no on/off variables - a plant with a minimum load behind a line is known finding F-16c)
+        pr = copy.deepcopy(prices)
+        base = SC.gen_base(rnd, g, pr, T, kind, 'sca_b', node_names)
+        if not any(x['type'] == 'Plant' for x in base.get('inner', [])):
+            prices = pr
+            break
+    extra_nodes = list(base.get('inner_nodes', []))
+    if base['type'] != 'StructuredAsset' and rnd.random() < 0.3:
+        gen.put_window(base['args'], gen.window(rnd, g, kinds=['inside', 'start_only', 'end_only', 'straddle_start', 'straddle_end', 'covering', 'offgrid']))
+    # the scale: held fixed (the statement at one scale) or free
+    if rnd.random() < 0.4:
+        lo = hi = rnd.choice([0.5, 1.0, 1.5, 2.0, 3.0, 0.25])
+    else:
+        lo = rnd.choice([0.0, 0.0, 0.5, 1.0])
+        hi = lo + rnd.choice([0.5, 1.0, 2.0, 3.0])
+    # fixed costs that are there: per norm scale and main time unit, either sign, float or int
+    r = rnd.random()
+    if r < 0.75:
+        fc = gen.q8(rnd, 0.25, 6)
+    elif r < 0.85:
+        fc = rnd.randint(1, 5)
+    elif r < 0.95:
+        fc = -gen.q8(rnd, 0.25, 3)
+    else:
+        fc = 0.0
+    if g['unit'] == 'h':
+        fc = fc / 8.0 if isinstance(fc, float) else fc
+    sargs = {'min_scale': lo, 'max_scale': hi, 'norm_scale': rnd.choice([1.0, 1.0, 2.0, 0.5, 4.0]), 'fix_costs': fc}
+    if rnd.random() < 0.4:
+        gen.put_window(sargs, gen.window(rnd, g, kinds=['inside', 'inside', 'start_only', 'end_only', 'straddle_start', 'straddle_end', 'covering', 'equal', 'offgrid']))
+    sc = {'type': 'ScaledAsset', 'name': rnd.choice(['sca', 'sca', 'sca_b']), 'base': base, 'args': sargs}
+    # who carries a wacc: the wrapper only / the base only / both (the same, or two different ones) / everything in the portfolio /
+    # nobody; given as float, or as int 0 on the wrapper
+    mode = rnd.choice(['wrapper', 'wrapper', 'wrapper', 'base', 'both', 'both', 'both-different', 'portfolio', 'portfolio', 'neither'])
+    w = rnd.choice(WACCS)
+    if mode in ('base', 'both', 'both-different', 'portfolio'):
+        _put_wacc(base, w)
+    if mode in ('wrapper', 'both', 'portfolio'):
+        sargs['wacc'] = w
+    elif mode == 'both-different':
+        sargs['wacc'] = rnd.choice([x for x in WACCS if x != w])
+    elif mode == 'base' and rnd.random() < 0.5:
+        sargs['wacc'] = rnd.choice([0, 0.0])
+    if mode == 'portfolio':
+        for a in assets:
+            _put_wacc(a, w)
+    assets.insert(rnd.randint(0, len(assets)), sc)
+    if rnd.random() < 0.25:
+        x = gen.gen_simple_contract(rnd, g, prices, T, 'extra', rnd.choice(node_names))
+        if mode == 'portfolio':
+            _put_wacc(x, w)
+        assets.append(x)
+    s = {'grid': g, 'nodes': node_names + extra_nodes, 'prices': prices, 'assets': assets}
+    return {'kind': 'scaled', 'scn': s, 'target': sc['name'], 'base_kind': kind, 'build': SC.draw_build(rnd), 'scan': rnd.choice([3, 3, 4]),
+            'stream': 'wrapargs', 'wacc_on': mode, 'duration': 'instants', 'cost_samples': True}
+
+
 def gen_case(rnd, stream):
     if stream == 'freeobl':
         return gen_freeobl_case(rnd)
     if stream == 'tzwin':
         return gen_tzwin_case(rnd)
+    if stream == 'wrapargs':
+        return gen_wrapargs_case(rnd)
     raise ValueError(stream)
 
 
@@ -404,6 +520,20 @@ def features(case, result):
         out.append('freeobl:fix_costs=%s' % ('zero' if fc == 0 else 'negative' if fc < 0 else 'positive'))
         if st.get('free_ref'):
             out.append('freeobl:best-at-%s%s' % (st.get('best_scale'), '' if st.get('ref_spread') else ':flat'))
+    if case.get('stream') == 'wrapargs':
+        spec = [s for s in case['scn']['assets'] if s['name'] == case['target']][0]
+        a = spec['args']
+        out.append('wrapargs:wacc-on-%s' % case.get('wacc_on'))
+        out.append('wrapargs:%s-scale:%s' % ('fixed' if a['min_scale'] == a['max_scale'] else 'free', 'own-window' if ('start' in a or 'end' in a) else 'whole-horizon'))
+        if st.get('fixed'):
+            days = (pd.Timestamp(case['scn']['grid']['end']) - pd.Timestamp(case['scn']['grid']['start'])) / pd.Timedelta(days=1)
+            out.append('wrapargs:compared:horizon-%s' % ('weeks' if days < 50 else 'months'))
+        if st.get('cost_samples'):
+            out.append('wrapargs:cost-samples-valued')
+        if st.get('cost_sample_errors'):
+            out.append('wrapargs:cost-sample-error:%s' % st['cost_sample_errors'][0])
+        if 'duration_package' in st:
+            out.append('wrapargs:duration-by-instants-differs-from-package-grid')
     if case.get('stream') == 'tzwin':
         out.append('tzwin:%s:zones-%s' % (case['kind'], case.get('zones')))
         dates = []
